@@ -94,26 +94,52 @@ def viewable(shape, layout, target):
         return False
 
 
-def real_split_recovery(which, shape, s, e):
-    """Pieces returned by the FSDP / HSDP copy of _split_tensor_block_recovery on shard = arange(s, e)."""
+def real_split_recovery(which, shape, s, e, layout="contig"):
+    """Pieces returned by the FSDP / HSDP copy of _split_tensor_block_recovery on a flat shard whose VALUES are the flat indices
+    s..e-1.  layout: 'contig' (its own storage), 'offset' (a window of a larger flat buffer, as FSDP hands out per-parameter
+    shards of its flat parameter), 'strided' (every other element of a larger buffer)."""
     if which == "fsdp":
         from distributed_shampoo.utils.shampoo_fsdp_distributor import FSDPDistributor as D
     else:
         from distributed_shampoo.utils.shampoo_hsdp_distributor import HSDPDistributor as D
-    shard = torch.arange(s, e, dtype=torch.float64)
+    vals = torch.arange(s, e, dtype=torch.float64)
+    if layout == "contig":
+        shard = vals.clone()
+    elif layout == "offset":
+        big = torch.full((e - s + 11,), -1.0, dtype=torch.float64)
+        shard = big[7:7 + (e - s)]
+        shard.copy_(vals)
+    elif layout == "strided":
+        big = torch.full((2 * (e - s) + 3,), -1.0, dtype=torch.float64)
+        shard = big[1:1 + 2 * (e - s):2]
+        shard.copy_(vals)
+    else:
+        raise ValueError(layout)
+    stride = shard.stride(0) if shard.numel() else 1
     pieces = D._split_tensor_block_recovery(shard, torch.Size(shape), s, e)
     base = shard.untyped_storage().data_ptr()
     out = []
     for p in pieces:
         flat = p.reshape(-1)
+        first = int(flat[0].item()) if flat.numel() else None
         out.append({
-            "off": int(flat[0].item()) if flat.numel() else None,
+            "off": first,
             "len": int(p.numel()),
             "shp": [int(x) for x in p.shape],
-            "view": p.untyped_storage().data_ptr() == base and p.storage_offset() == (int(flat[0].item()) - s if flat.numel() else 0),
-            "contiguous_values": bool(flat.numel() == 0 or torch.equal(flat, torch.arange(int(flat[0].item()), int(flat[0].item()) + flat.numel(), dtype=torch.float64))),
+            "view": p.untyped_storage().data_ptr() == base
+                    and p.storage_offset() == (shard.storage_offset() + (first - s) * stride if flat.numel() else p.storage_offset()),
+            "contiguous_values": bool(flat.numel() == 0 or torch.equal(flat, torch.arange(first, first + flat.numel(), dtype=torch.float64))),
             "is_contiguous": p.is_contiguous(),
         })
+    # writing through the pieces reaches every element of the shard exactly once
+    with torch.no_grad():
+        for p in pieces:
+            p.add_(1000.0)
+    ok = bool(torch.equal(shard, vals + 1000.0))
+    for o in out:
+        o["write_through"] = ok
+    if not out and e > s:
+        out.append({"off": None, "len": 0, "shp": [], "view": True, "contiguous_values": True, "is_contiguous": True, "write_through": ok})
     return out
 
 
@@ -144,8 +170,9 @@ def _dist_cls(which):
     return D
 
 
-def real_assignment(which, numels, itemsize, G, rank=0):
-    """LPT assignment and gather-buffer layout of one of the three copies, driven through a stub `self`."""
+def real_assignment(which, numels, itemsize, G, rank=0, lpt_only=False):
+    """LPT assignment and gather-buffer layout of one of the three copies, driven through a stub `self`.
+    lpt_only: sizes are plain integers (no buffer is allocated) - used for loads of several GiB per rank."""
     import types
     D = _dist_cls(which)
     comm_dtype = {2: torch.bfloat16, 4: torch.float32}[itemsize]
@@ -153,7 +180,7 @@ def real_assignment(which, numels, itemsize, G, rank=0):
     sizes = tuple(n * itemsize for n in numels)
     bsr = D._distribute_buffer_sizes(stub, sizes)
     out = {"lpt": [[int(a), int(r)] for a, r in bsr]}
-    if not numels:
+    if not numels or lpt_only:
         return out
     stub._global_blocked_params = tuple(torch.zeros(n) for n in numels)
     stub._distributor_selector = tuple(r == rank for _, r in bsr)
